@@ -116,9 +116,17 @@ def check_props(prop_id, extra_targets=()):
         vo.unlink()
     t0 = time.time()
     ok, log = make([rel + "o"] + list(extra_targets))
+    for _ in range(2):
+        if ok and not vo.exists():
+            # make reported success but the object file is not visible (seen once on a freshly restored
+            # copy with several checks running at once): build again rather than report a half-result
+            time.sleep(0.5)
+            ok, log2 = make([rel + "o"] + list(extra_targets))
+            log += log2
+    built = ok and vo.exists()
     closure = dep_closure(rel)
     obligations, names = count_statements(closure)
-    if ok and vo.exists():
+    if built:
         # make succeeded: every file in the closure was (re)compiled or found up to date by make
         discharged = obligations
     else:
@@ -145,7 +153,7 @@ def check_props(prop_id, extra_targets=()):
             continue
         i += 1
     theorems = [n.split(":")[1] for n in names if n.startswith(rel + ":")]
-    return {"ok": ok and vo.exists(), "log": log, "closure": closure, "obligations": obligations,
+    return {"ok": built, "log": log, "closure": closure, "obligations": obligations,
             "discharged": discharged, "assumptions": assumptions, "theorems": theorems,
             "secs": time.time() - t0}
 
